@@ -103,8 +103,23 @@ def emitter_histories(rng, impl, count, gen_grid, variant_form, fails):
     return lines, dist
 
 
-def validation_cases(rng, impl, count):
-    """argument validation of the emitters and the integrators: the error kind (none / ValueError) against the model"""
+def _outcome(fn, fails, what, info):
+    """0 = accepted, 1 = ValueError, 2 = any other exception (never expected: recorded as a failing input)"""
+    try:
+        fn()
+        return 0
+    except ValueError:
+        return 1
+    except Exception as exc:      # noqa: BLE001
+        fails.append({"claim": "%s: accepted or rejected with ValueError (got %s)" % (what, type(exc).__name__),
+                      "key": "c10:exception:%s:%s" % (what[:40], type(exc).__name__), "error": "%s: %s" % (type(exc).__name__, exc),
+                      "input": info})
+        return 2
+
+
+def validation_cases(rng, impl, count, fails):
+    """argument validation of the emitters and the integrators: the error kind (none / ValueError) against the model;
+    half of the cylindrical cases have a period on either side of 360/k inside or outside the 1e-3 tolerance"""
     em = impl.em
     lines = []
     periods = [(360.0, 1), (180.0, 2), (90.0, 3), (30.0, 12), (7.2, 50), (100.0, 1), (50.0, 3), (361.5, 1), (350.0, 1), (45.0, 8),
@@ -113,22 +128,20 @@ def validation_cases(rng, impl, count):
         sh = [rng.choice([1, 2, 3, 0, -1, 2, 4]) if rng.random() < 0.25 else rng.randint(1, 4) for _ in range(3)]
         st = [rng.choice([0.0, -0.5, 1.0]) if rng.random() < 0.2 else rng.choice([0.25, 0.5, 1.0, 1.5]) for _ in range(3)]
         if i % 2 == 0:
-            err = 0
-            try:
-                em.CartesianRayTransferEmitter(tuple(sh), tuple(st))
-            except ValueError:
-                err = 1
+            err = _outcome(lambda: em.CartesianRayTransferEmitter(tuple(sh), tuple(st)), fails, "CartesianRayTransferEmitter(grid_shape, grid_steps)",
+                           {"grid_shape": sh, "grid_steps": st})
             lines.append("b2z (check_validate_cart %s (%s, %s, %s) %s)" % (shp(sh), qlit(st[0]), qlit(st[1]), qlit(st[2]), zl(err)))
         else:
             dphi, nphi = rng.choice(periods)
+            if rng.random() < 0.5:
+                k = rng.randint(1, 12)
+                nphi = rng.choice([1, 2, 3, 5])
+                dphi = 360.0 / k * (1 + rng.choice([-1, 1]) * rng.choice([1e-4, 5e-4, 9e-4, 2e-3, 5e-3])) / nphi
             sh[1] = nphi if rng.random() < 0.85 else sh[1]
             st[1] = dphi
             rmin = rng.choice([0.0, 0.5, 2.0, -0.25, -1e-9]) if rng.random() < 0.4 else rng.choice([0.0, 1.0])
-            err = 0
-            try:
-                em.CylindricalRayTransferEmitter(tuple(sh), tuple(st), rmin=rmin)
-            except ValueError:
-                err = 1
+            err = _outcome(lambda: em.CylindricalRayTransferEmitter(tuple(sh), tuple(st), rmin=rmin), fails,
+                           "CylindricalRayTransferEmitter(grid_shape, grid_steps, rmin)", {"grid_shape": sh, "grid_steps": st, "rmin": rmin})
             lines.append("b2z (check_validate_cyl %s (%s, %s, %s) %s %s)" % (shp(sh), qlit(st[0]), qlit(st[1]), qlit(st[2]), qlit(rmin), zl(err)))
     for _ in range(max(4, count // 4)):
         step = rng.choice([0.0, -0.1, 1e-300, 0.01, 2.5])
@@ -197,3 +210,112 @@ def translate_constants():
            "Proof. repeat split; reflexivity. Qed.\n"
            % ("cherab/tools/raytransfer/emitters.pyx", _q(short), _q(half), _q(wrap), _q(wrap2), _q(deg), _q(full), _q(tol), ms))
     return txt
+
+
+# ---------------------------------------------------------------------------------------------
+# periods on both sides of 360/k inside the accepted tolerance
+# ---------------------------------------------------------------------------------------------
+def _product_table():
+    """for k = 1..12: (n_polar, 'above' | 'below') such that n_polar * fl((360/k) / n_polar) rounds above / below 360/k"""
+    tab = {}
+    for k in range(1, 13):
+        P0 = 360.0 / k
+        for n in range(2, 61):
+            prod = n * (P0 / n)
+            if prod != P0:
+                tab.setdefault((k, "product-above" if prod > P0 else "product-below"), []).append(n)
+    return tab
+
+
+PRODUCT_TABLE = _product_table()
+PERIOD_CLASSES = ["exact", "user-above", "user-below", "product-above", "product-below"]
+
+
+def offperiod_cases(rng, impl, count, S, fails, stats):
+    """cylindrical grids whose period n_polar * dphi lies on either side of 360/k (k = 1..12) inside the emitter's tolerance:
+    user-supplied periods 360/k * (1 +- 1e-4 .. 9e-4) and products n_polar * fl(period / n_polar) that round above / below.
+    emission_function at azimuths spread over the whole circle is compared inside Coq with the code's own fold fed the atan2
+    value (check_emission_phi); a chord sweeping ~150 degrees of azimuth goes through the executable property (sum, per-cell
+    entries against the chord in the folded cells, merged maps)."""
+    import math
+    from common import qlit, dyadic
+    lines = []
+    classes = {}
+    for ci in range(count):
+        cls = PERIOD_CLASSES[ci % len(PERIOD_CLASSES)]
+        k = 1 + (ci // len(PERIOD_CLASSES)) % 12
+        P0 = 360.0 / k
+        if cls.startswith("product"):
+            cand = PRODUCT_TABLE.get((k, cls))
+            if not cand:
+                cls, cand = "exact", None
+        if cls.startswith("product"):
+            nphi = rng.choice(cand)
+            P = P0
+        else:
+            nphi = rng.choice([1, 2, 3, 4, 5, 7, 12])
+            # the emitter accepts |round(360/period) - 360/period| <= 1e-3, i.e. a relative offset below 1e-3 / k
+            eps = rng.choice([1e-4, 2e-4, 5e-4, 9e-4]) / k
+            P = P0 * (1 + eps) if cls == "user-above" else P0 * (1 - eps) if cls == "user-below" else P0
+        dphi = P / nphi                       # what RayTransferCylinder computes from (period, n_polar)
+        nr, nz = rng.randint(1, 2), rng.randint(1, 2)
+        dr, dz = rng.choice([0.5, 1.0, 0.75]), rng.choice([0.5, 1.0])
+        g = {"kind": "cyl", "shape": [nr, nphi, nz], "dr": dr, "dz": dz, "rmin": 0.0, "dphi": dphi, "nphi": nphi,
+             "period": nphi * dphi, "rmax": nr * dr, "zmax": nz * dz, "scale": 1.0, "period_class": "%s/k=%d" % (cls, k)}
+        classes[cls] = classes.get(cls, 0) + 1
+        n = nr * nphi * nz
+        B = rng.randint(2, 6)
+        vm = [rng.randint(-1, B - 1) for _ in range(n)]
+        vm[rng.randrange(n)] = B - 1
+        g["vm"] = vm
+
+        def unit():
+            mat = impl.material(g, vm=vm)
+            g["bins"] = int(mat.bins)
+            # emission_function at azimuths over the whole circle
+            for i in range(8):
+                a = math.radians(-180.0 + 360.0 * (i + rng.random()) / 8)
+                rr = (rng.randrange(nr) + rng.uniform(0.2, 0.8)) * dr
+                p = [rr * math.cos(a), rr * math.sin(a), (rng.randrange(nz) + rng.uniform(0.2, 0.8)) * dz]
+                phi = (180. / math.pi) * math.atan2(p[1], p[0])
+                init = [dyadic(rng, 0, 4, 4) for _ in range(g["bins"])]
+                out, err = impl.emission(mat, p, init)
+                lines.append("check_emission_phi %s {| q_rmin := 0; q_dr := %s; q_dz := %s; q_nphi := %s; q_dphi := %s; q_nr := %s |} %s "
+                             "(%s, %s, %s) %s %s %s %s" % (shp(g["shape"]), qlit(dr), qlit(dz), zl(nphi), qlit(dphi), zl(nr), zlist(vm),
+                                                          qlit(p[0]), qlit(p[1]), qlit(p[2]), qlit(phi),
+                                                          "[" + "; ".join(qlit(v) for v in init) + "]", "[" + "; ".join(qlit(v) for v in out) + "]", zl(err)))
+                # the same statement on the implementation alone: exactly the bin of the folded cell is incremented
+                cell = S.cyl_cell_py(g, p[0], p[1], p[2])
+                src = vm[S.flat(g, cell)] if S.in_shape(g, cell) else None
+                want = list(init)
+                if src is not None and src >= 0:
+                    want[src] += 1.0
+                fold = ((phi + 360.0) % g["period"]) / dphi
+                near = abs(fold - round(fold)) < 1e-9 or abs(abs(phi) - 180.0) < 1e-9
+                if not near and (err or out != want):
+                    fails.append({"claim": "emission_function credits the cell of the point, the azimuth folded with the stated period "
+                                           "(period on either side of 360/k within the accepted tolerance)",
+                                  "grid": {kk: vv for kk, vv in g.items() if not kk.startswith("_")}, "point": p, "azimuth_deg": phi,
+                                  "expected_cell": list(cell), "expected_source": src, "before": init, "after": out, "error": err})
+                    break
+            # a chord that sweeps a wide range of azimuths
+            if n <= 60:
+                a0 = rng.uniform(-math.pi, math.pi)
+                a1 = a0 + math.radians(rng.uniform(120, 170))
+                R = 0.85 * g["rmax"]
+                p0 = [R * math.cos(a0), R * math.sin(a0), rng.uniform(0.1, 0.9) * g["zmax"]]
+                p1 = [R * math.cos(a1), R * math.sin(a1), rng.uniform(0.1, 0.9) * g["zmax"]]
+                step = rng.uniform(0.03, 0.1) * min(dr, dz)
+                m12 = [1.0, 0, 0, 0, 0, 1.0, 0, 0, 0, 0, 1.0, 0]
+                L = impl.length(m12, p0, p1)
+                c = {"class": "off-period", "step": step, "min_samples": 2, "m12": m12, "p0": p0, "p1": p1, "length": L,
+                     "n": max(2, int(L / step))}
+                stats["off_period_rays"] = stats.get("off_period_rays", 0) + 1
+                return S.check_segment(impl, g, c, stats, rng)
+            return []
+        r = S.guard(fails, "cylindrical emitter with period %s" % g["period_class"].split("/")[0],
+                    {k2: v for k2, v in g.items() if not k2.startswith("_")}, unit)
+        if r:
+            fails.extend(r)
+    stats["period_classes"] = classes
+    return lines
